@@ -26,7 +26,7 @@ git -C /repo worktree remove --force $SC
 git -C /repo apply $SRC/$SUB/patch.diff || { echo "cannot apply to /repo"; exit 3; }
 OUT=/tmp/sc-$NAME.check.log; : > $OUT
 for P in $PROP; do ./run.sh $P quick >> $OUT 2>&1; echo "check $P rc=$?"; done
-git -C /repo checkout -- .
+git -C /repo apply -R $SRC/$SUB/patch.diff || git -C /repo checkout -- .; [ -z "$(git -C /repo status --porcelain)" ] || echo "WARNING: /repo not clean after revert"
 grep "^VIOLATION" $OUT | cut -c1-300
 mkdir -p /verif/seeded/$NAME
 cp $SRC/$SUB/patch.diff /verif/seeded/$NAME/patch.diff
